@@ -13,3 +13,20 @@ func (db *DB) VerifC07MemtableCount() int {
 func (db *DB) VerifC07TableCounts() []int {
 	return db.currentSSTables().TableCounts()
 }
+
+// VerifC07TableNames returns the file names of the tables of the current level list in level order.
+func (db *DB) VerifC07TableNames() []string {
+	var names []string
+	for level := range db.currentSSTables().DescendLevels() {
+		for t := range level.AllTables() {
+			names = append(names, t.Name())
+		}
+	}
+	return names
+}
+
+// VerifC07EnqueueCompaction puts fn on the serial compaction queue (behind the compaction tasks already enqueued), so
+// that the harness learns when a compaction task that ended with an error has finished.
+func (db *DB) VerifC07EnqueueCompaction(fn func() error) {
+	db.tasks.Enqueue(compactionQueue, fn)
+}
